@@ -28,7 +28,9 @@ THEOREMS = ["Builder.sim", "Builder.documented_eq_bound_partial", "Builder.kind_
             "Builder.documented_eq_bound_setter_counterexample", "Builder.documented_eq_bound_annotation_counterexample",
             "Builder.documented_eq_bound_inherited_counterexample", "Builder.documented_eq_bound_tail_counterexample",
             "Builder.documented_eq_bound_rebinding_counterexample", "Builder.documented_eq_bound_overload_counterexample",
-            "Builder.kind_eq_counterexample", "Builder.oldstyle_double_wrap_asserts",
+            "Builder.kind_eq_counterexample", "Builder.oldstyle_double_wrap_asserts", "Builder.isNameEqualsMain_iff",
+            "Builder.recognised_not_taken", "Builder.near_misses_taken_and_entered",
+            "Builder.documented_eq_bound_untaken_guard_counterexample",
             "Builder.exception_eq_counterexample_old", "Builder.docstring_eq_counterexample_old"]
 RULE = ("generated multi-module packages (package __init__, 1-3 modules, optional subpackage; a fixed helper module with "
         "identity decorators and a context manager): module/class-level class (external bases drawn from every exception "
@@ -37,7 +39,9 @@ RULE = ("generated multi-module packages (package __init__, 1-3 modules, optiona
         "(plain, called, non-name expression, one whose name ends in 'property'), name = literal (int float complex str "
         "bytes bool None, list/tuple/set/dict homogeneous, mixed, nested, empty), annotated and bare annotations, string "
         "statements after assignments/definitions/properties, nested classes, taken if/try/with/for bodies (else/finally "
-        "parts with and without definitions), if __name__ == '__main__' blocks, nested defs, self.x assignments, "
+        "parts with and without definitions), if __name__ == '__main__' blocks and near misses of that test whose body IS executed on "
+        "import (__name__ != '__main__', '__main__' != __name__, not __name__ == '__main__', __name__ is not None, ...) or is not "
+        "('__main__' == __name__, __name__ is None, ...), nested defs, self.x assignments, "
         "old-style f = staticmethod(f), re-bound names, docstrings in 9 indentation layouts. One case = one namespace "
         "(module or class). Non-trivial = the namespace contains a decorator, a nested class, a taken block or an "
         "attribute docstring.")
@@ -249,6 +253,37 @@ def doc_src(indent: str, value: str) -> str:
 #   ("asg", name, src, lit, ann)   ("ann", name, ann)   ("str", text)
 #   ("blk", kind, body, tail)   ("main", body)   ("old", name, "c"|"s")   ("oth",)
 
+# guards `if [not] <left> <op> <right>:` over d = __name__, m = '__main__', n = None  (left, op, right, negated)
+TAKEN_GUARDS = [("d", "ne", "m", 0), ("m", "ne", "d", 0), ("d", "eq", "m", 1), ("d", "isnot", "n", 0),
+                ("m", "eq", "d", 1), ("d", "ne", "n", 0), ("d", "eq", "d", 0)]
+UNTAKEN_GUARDS = [("m", "eq", "d", 0), ("d", "is", "n", 0), ("d", "eq", "n", 0), ("d", "ne", "m", 1), ("d", "isnot", "n", 1)]
+OPERAND_SRC = {"d": "__name__", "m": "'__main__'", "n": "None"}
+OP_SRC = {"eq": "==", "ne": "!=", "is": "is", "isnot": "is not"}
+
+
+def guard_src(g) -> str:
+    e = "%s %s %s" % (OPERAND_SRC[g[0]], OP_SRC[g[1]], OPERAND_SRC[g[2]])
+    return "if not %s:" % e if g[3] else "if %s:" % e
+
+
+def guard_taken(g) -> bool:
+    same = g[0] == g[2]
+    v = same if g[1] in ("eq", "is") else not same
+    return (not v) if g[3] else v
+
+
+def bound_names(stmts: list) -> List[str]:
+    out: List[str] = []
+    for s in stmts:
+        if s[0] in ("def", "class", "asg", "ann", "old"):
+            out.append(s[1])
+        elif s[0] == "blk":
+            out += bound_names(s[2]) + bound_names(s[3])
+        elif s[0] == "cmp":
+            out += bound_names(s[2])
+    return out
+
+
 class Scope:
     def __init__(self, qname: str, in_class: bool, in_block: bool, stmts: list, cid: Optional[int] = None) -> None:
         self.qname, self.in_class, self.in_block, self.stmts, self.cid = qname, in_class, in_block, stmts, cid
@@ -435,7 +470,7 @@ class ProjGen:
         rng = self.rng
         n = nstmts if nstmts is not None else rng.randint(1, 5 if depth < 2 else 3)
         for _ in range(n):
-            k = rng.choice(["def", "def", "def", "asg", "asg", "class", "blk", "str", "main", "oth"])
+            k = rng.choice(["def", "def", "def", "asg", "asg", "class", "blk", "cmp", "str", "main", "oth"])
             if k == "def":
                 self.gen_def(sc, seen, out, indent_depth)
             elif k == "asg":
@@ -460,6 +495,22 @@ class ProjGen:
                 if out and out[-1][0] == "def" and any(d in ("p", "P") for d in out[-1][3]) and sc.in_class:
                     sc.label(out[-1][1], "string-after-property")
                 out.append(("str", gen_doc(rng, "    " * indent_depth)))
+            elif k == "cmp" and indent_depth < 4:
+                if rng.random() < 0.85 or self.odd == 0.0:
+                    # near misses of the `__main__` idiom whose body IS executed on import
+                    g = rng.choice(TAKEN_GUARDS)
+                    body = []
+                    self.gen_body(sc, seen, body, indent_depth + 1, depth, modq, local_classes, True, inherited, rng.randint(1, 3))
+                    out.append(("cmp", g, body))
+                else:
+                    # tests that are false on import but are not the recognised spelling: pydoctor enters, CPython does not
+                    g = rng.choice(UNTAKEN_GUARDS)
+                    body = []
+                    msc = Scope("<untaken>", sc.in_class, True, body)
+                    self.gen_body(msc, {}, body, indent_depth + 1, 2, modq, [], True, {}, rng.randint(1, 2))
+                    for nm in bound_names(body):
+                        sc.label(nm, "untaken-guard")
+                    out.append(("cmp", g, body))
             elif k == "main":
                 mb: list = []
                 msc = Scope("<main>", sc.in_class, True, mb)
@@ -506,7 +557,7 @@ class ProjGen:
     def collect_exports(self, q: str, s) -> None:
         if s[0] == "class":
             self.exported.append((q, s[1], s[6]))
-        elif s[0] == "blk":
+        elif s[0] == "blk" or (s[0] == "cmp" and guard_taken(s[1])):
             for x in s[2]:
                 self.collect_exports(q, x)
 
@@ -568,6 +619,9 @@ class ProjGen:
                 if tail:
                     out.append(ind + {"i": "else:", "t": "finally:", "f": "else:"}[kind])
                     out += self.emit(tail, d + 1)
+            elif k == "cmp":
+                out.append(ind + guard_src(s[1]))
+                out += self.emit(s[2], d + 1) or [ind + "    pass"]
             elif k == "main":
                 out.append(ind + "if __name__ == '__main__':")
                 out += self.emit(s[1], d + 1) or [ind + "    pass"]
@@ -618,6 +672,9 @@ def stmt_tokens(stmts: list) -> List[str]:
             out += ["str", enc(s[1])]
         elif k == "blk":
             out += ["blk", s[1], "("] + stmt_tokens(s[2]) + [")", "("] + stmt_tokens(s[3]) + [")"]
+        elif k == "cmp":
+            g = s[1]
+            out += ["cmp", g[0], g[1], g[2], str(g[3]), "("] + stmt_tokens(s[2]) + [")"]
         elif k == "main":
             out += ["main", "("] + stmt_tokens(s[1]) + [")"]
         elif k == "old":
@@ -662,14 +719,14 @@ def label_strings(sc: Scope, inh: Set[str] = frozenset()) -> None:
                 if cur[0] is not None:
                     sc.label(cur[0], "string-after-property")
                 cur[0] = None
-            elif k == "blk":
+            elif k == "blk" or k == "cmp":
                 walk(s[2])
     walk(sc.stmts)
 
 
 def nontrivial(stmts: list) -> bool:
     for s in stmts:
-        if s[0] in ("class", "blk"):
+        if s[0] in ("class", "blk", "cmp"):
             return True
         if s[0] == "def" and s[3]:
             return True
@@ -784,7 +841,7 @@ def oracle_scope(ctx: Ctx, sc: Scope, pd: Dict[str, Dict[str, Any]], py: Dict[st
     def excused(name: str) -> Optional[str]:
         """mismatch on a name the generator put outside the theorem's subset for a reason that is not a recorded finding"""
         for why in ("rebound", "overload", "tail-def", "stacked-descriptors", "qualified-spelling",
-                    "opaque-named-property", "module-level-descriptor", "double-wrap"):
+                    "opaque-named-property", "module-level-descriptor", "double-wrap", "untaken-guard"):
             if why in sc.labels.get(name, ()):
                 return why
         return None
@@ -1085,6 +1142,8 @@ def run_batch(ctx: Ctx, batch, pyres) -> None:
                         ctx.count("deco:" + (d if isinstance(d, str) else d[0]))
                 if s[0] == "blk":
                     ctx.count("block:" + s[1])
+                if s[0] == "cmp":
+                    ctx.count("guard:%s:%s" % ("taken" if guard_taken(s[1]) else "untaken", guard_src(s[1])))
     ctx.compare("builder-scope", reqs_pd, impl_pd, pay)
     ctx.compare("pysem-scope", reqs_py, impl_py, pay)
     verdicts = ctx.driver.run_parallel(sub_reqs) if ctx.model_ok else ["out"] * len(sub_reqs)
@@ -1107,6 +1166,8 @@ def flat(stmts: list):
         if s[0] == "blk":
             yield from flat(s[2])
             yield from flat(s[3])
+        if s[0] == "cmp":
+            yield from flat(s[2])
 
 
 def replay(ctx: Ctx, obj) -> int:
